@@ -66,3 +66,10 @@ def exhaustive(universe, typedepth=0, maxargs=2, target=2, members=1, timeout=18
                          rich="TRUE" if rich else "FALSE", maxitems=maxitems)
     res = tlc.run("IfaceExh", cfg_text=cfg, workers=1, timeout=timeout, coverage=coverage)
     return _cases(res, "exh(%s,d=%d,a=%d,t=%d,m=%d)" % (universe, typedepth, maxargs, target, members)), res
+
+
+def scenarios(family, timeout=600):
+    """a directed family of spec/Scenarios.tla.  Returns (cases, TLCResult)."""
+    res = tlc.run("Scenarios", cfg_text="SPECIFICATION Spec\nCONSTANTS\n  Family = \"%s\"\nCHECK_DEADLOCK FALSE\n" % family,
+                  workers=1, timeout=timeout)
+    return _cases(res, "scenario(%s)" % family), res
